@@ -217,6 +217,14 @@ Definition set_repetition_definition (x : id) (r : rdef) : M unit :=
   modn x (set_rdf r) ;;; invalidate_parent x.
 Definition set_repetition_count (x : id) (z : Z) : M unit := set_repetition_definition x (RInt z).
 Definition set_waveform (x : id) (w : option wf) : M unit := modn x (set_wform w) ;;; invalidate_all x.
+(* round 4: `x.repetition_count = val` with a float val (exact rational value q): new = int(val) (truncation toward zero);
+   `abs(new - val) > 1e-10` raises ValueError BEFORE anything is stored (the float subtraction is exact: Sterbenz) *)
+Definition Qtrunc (q : Q) : Z := Z.quot (Qnum q) (Zpos (Qden q)).
+Definition rep_eps : Q := 7737125245533627 # 77371252455336267181195264.      (* the double 1e-10 *)
+Definition Qabsb (q : Q) : Q := if Qle_bool 0 q then q else Qopp q.
+Definition set_repetition_count_q (x : id) (q : Q) : M unit :=
+  let z := Qtrunc q in
+  if Qle_bool (Qabsb (inject_Z z - q)) rep_eps then set_repetition_count x z else raise ExValue.
 
 (* ---- Python indexing and slices -------------------------------------------------------------------------------- *)
 Definition py_index (len i : Z) : option Z :=
@@ -298,9 +306,10 @@ Fixpoint pick_ext {A} (l : list A) (s st : Z) (cnt : nat) : list A :=
   | S c => match nth_error l (Z.to_nat s) with Some a => a :: pick_ext l (s + st) st c | None => pick_ext l (s + st) st c end
   end.
 
-(* Node.__setitem__, slice branch; `vals` are ids of existing nodes (parse_child only re-parents them) *)
+(* Node.__setitem__, slice branch; `vals` are ids of existing nodes (parse_child only re-parents them).
+   Round 4 repair: every check that can reject the assignment (step 0, size mismatch of an extended slice) comes BEFORE the
+   first value is re-parented: a rejected assignment has no effect. *)
 Definition node_setitem_slice (x : id) (start stop step : option Z) (vals : list id) : M unit :=
-  miter (fun c => modn c (set_parent (Some x))) vals ;;;
   n <- getn x ;;
   let cs := children n in
   let len := Z.of_nat (length cs) in
@@ -309,11 +318,14 @@ Definition node_setitem_slice (x : id) (start stop step : option Z) (vals : list
   | Some (s, e, st) =>
       let rl := range_len s e st in
       let k := Z.of_nat (length vals) in
+      if negb (st =? 1) && negb (k =? rl) then raise ExValue else
+      miter (fun c => modn c (set_parent (Some x))) vals ;;;
       let removed := if st =? 1 then firstn (Z.to_nat (Z.max s e) - Z.to_nat s) (skipn (Z.to_nat s) cs)
                      else pick_ext cs s st (Z.to_nat rl) in
       (if st =? 1
        then modn x (set_children (firstn (Z.to_nat s) cs ++ vals ++ skipn (Z.to_nat (Z.max s e)) cs))
-       else if k =? rl then modn x (set_children (assign_ext cs s st vals)) else raise ExValue) ;;;
+       else if k =? rl then modn x (set_children (assign_ext cs s st vals))
+            else raise ExValue (* list.__setitem__ would raise here; unreachable after the check above *)) ;;;
       (if negb (k =? rl)
        then (let first := if 0 <? st then s else e in
              n' <- getn x ;;
@@ -322,15 +334,15 @@ Definition node_setitem_slice (x : id) (start stop step : option Z) (vals : list
        else ret tt) ;;;
       detach_removed x removed vals
   end.
-(* Node.__setitem__, integer branch *)
+(* Node.__setitem__, integer branch (round 4 repair: the index is validated and normalised first) *)
 Definition node_setitem_int (x : id) (idx : Z) (v : id) : M unit :=
-  modn v (set_parent (Some x)) ;;;
   n <- getn x ;;
   let len := Z.of_nat (length (children n)) in
-  modn v (set_pidx (Some (if idx <? 0 then idx + len else idx))) ;;;
   match py_index len idx with
   | None => raise ExIndex
-  | Some i => modn x (set_children (set_nth (children n) (Z.to_nat i) v)) ;;;
+  | Some i => modn v (set_parent (Some x)) ;;;
+              modn v (set_pidx (Some i)) ;;;
+              modn x (set_children (set_nth (children n) (Z.to_nat i) v)) ;;;
               detach_removed x (match nth_error (children n) (Z.to_nat i) with Some o => [o] | None => [] end) [v]
   end.
 (* Loop.__setitem__ *)
@@ -669,7 +681,11 @@ Inductive op :=
 | OQueryDur (p : path)                                            (* x.duration *)
 | OQueryBody (p : path)                                           (* x.body_duration *)
 | OEq (a b : path)                                                (* a == b (no effect) *)
-| OEqCopy (p : path) (k : nat).                                   (* c = x.copy_tree_structure(None); perturb c in way k; x == c *)
+| OEqCopy (p : path) (k : nat)                                    (* c = x.copy_tree_structure(None); perturb c in way k; x == c *)
+(* round 4: calls the caller survives inside try/except *)
+| OSetRepCountQ (p : path) (q : Q)                                (* x.repetition_count = <float with exact value q> *)
+| OReject (p : path) (e : exn).                                   (* a call on x whose arguments are rejected (wrong type, both loop= and
+                                                                     keywords, NaN count, ...): raises e, nothing else happens *)
 
 (* the copy of OEqCopy is changed in exactly one respect (k = 0, 5: in none that == may see) *)
 Fixpoint first_leaf (fuel : nat) (h : heap) (x : id) : id :=
@@ -734,6 +750,8 @@ Definition step (s : state) (o : op) : state * outcome :=
   | OQueryBody p => run_at s p (fun x => fueled (fun fuel => body_duration fuel x) ;;; ret tt)
   | OEq _ _ => (s, Done)
   | OEqCopy p k => run_at s p (fun x => c <- copy_tree_structure x NPNone ;; perturb k c)
+  | OSetRepCountQ p q => run_at s p (fun x => set_repetition_count_q x q)
+  | OReject p e => run_at s p (fun _ => raise e)
   end.
 
 Definition init_state (t : tspec) : state :=
